@@ -16,10 +16,11 @@ Definition pt_witness : term :=
   T OAnd [T OEquals [pt_y; pt_x]; T (OExists [("x", bv2)]) [T ONot [T OEquals [pt_x; pt_y]]]].
 Definition pt_sigma : list (var * term) := [(("y", bv2), pt_x)].
 Definition pt_interp : interp :=
-  {| isym := fun _ t => match t with TBV _ => VBV 2 0 | TBool => VBool false | TInt => VInt 0 | TReal => VReal 0
-                                  | TStr => VStr [] | TArr _ _ => VArr (fun _ => VBool false)
-                                  | TUser n _ => VU n 0 | TFun _ _ => VBool false end;
-     ifun := fun _ _ _ => VBool false; rdiv0 := fun x => x; idiv0 := fun x => x |}.
+  {| isym := fun _ t => default_val t;
+     ifun := fun _ t _ => match t with TFun _ r => default_val r | _ => VBool false end;
+     rdiv0 := fun x => x; idiv0 := fun x => x |}.
+Lemma pt_interp_wf : wf_interp pt_interp.
+Proof. split; cbn; intros; now apply default_val_has_ty. Qed.
 
 Example pt_output :
   propagate_with pt_sigma pt_witness =
@@ -28,10 +29,9 @@ Example pt_output :
 Proof. reflexivity. Qed.
 
 (* the full clause [licensed sigma t -> holds I (propagate_with sigma t) <-> holds I t] is FALSE: *)
-Theorem proptop_refuted :
-  exists t sigma I, licensed sigma t = true /\ holds I t /\ ~ holds I (propagate_with sigma t).
+Lemma proptop_refuted_witness : holds pt_interp pt_witness /\ ~ holds pt_interp (propagate_with pt_sigma pt_witness).
 Proof.
-  exists pt_witness, pt_sigma, pt_interp. split; [reflexivity|]. split.
+  split.
   - apply holds_tv. unfold pt_witness. rewrite tv_and. cbn [forallb]. rewrite andb_true_r. apply andb_true_iff. split.
     + unfold tv. cbn. now rewrite veqb_refl.
     + apply tv_exists_true. exists [VBV 2 1]. split.
@@ -44,4 +44,203 @@ Proof.
       apply tv_exists_true in E. destruct E as (xs & _ & E). rewrite tv_not in E. unfold tv in E. cbn in E.
       rewrite veqb_refl in E. discriminate. }
     rewrite F. rewrite !andb_false_r. cbn. discriminate.
+Qed.
+
+Theorem proptop_refuted :
+  exists t sigma I, licensed sigma t = true /\ holds I t /\ ~ holds I (propagate_with sigma t).
+Proof. exists pt_witness, pt_sigma, pt_interp. split; [reflexivity | exact proptop_refuted_witness]. Qed.
+
+(* ================================================================ the whole function, quantifier-free inputs *)
+From PySMT.proofs Require Import Sets_proofs Subst_proofs Partition_proofs.
+
+(* replacing equals by equals *)
+Lemma eval_congr I o args args' : is_quant_op o = false ->
+  map (eval I) args' = map (eval I) args -> eval I (T o args') = eval I (T o args).
+Proof. intros Hq H. destruct o; try discriminate; cbn [eval]; rewrite ?H; reflexivity. Qed.
+
+Lemma tlookup_In s t v : tlookup s t = Some v -> In (t, v) s.
+Proof.
+  induction s as [|[k w] s IH]; cbn; [discriminate|]. destruct (term_eqb k t) eqn:E.
+  - intros H. injection H as <-. apply term_eqb_eq in E. subst. now left.
+  - intros H. right. auto.
+Qed.
+
+Lemma tsubst_nonquant s o args : is_quant_op o = false ->
+  tsubst s (T o args) = match tlookup s (T o args) with Some v => v | None => rebuild o (map (tsubst s) args) end.
+Proof. destruct o; intros; try discriminate; reflexivity. Qed.
+
+Lemma tsubst_top_not s o args : (forall k v, In (k, v) s -> top_not v = false) ->
+  node_normal o args = true -> is_quant_op o = false -> o <> ONot -> top_not (tsubst s (T o args)) = false.
+Proof.
+  intros Hs Hn Hq Ho. rewrite tsubst_nonquant by auto. destruct (tlookup s (T o args)) as [v|] eqn:E.
+  - apply tlookup_In in E. eapply Hs; eauto.
+  - rewrite (rebuild_same_len o args) by (auto; apply map_length). destruct o; auto. congruence.
+Qed.
+
+Theorem tsubst_eval : forall t I s,
+  (forall k v, In (k, v) s -> eval I k = eval I v) -> (forall k v, In (k, v) s -> top_not v = false) ->
+  is_qf t = true -> normal t = true -> eval I (tsubst s t) = eval I t.
+Proof.
+  induction t as [o args IH] using term_ind'. intros I s He Hs Hqf Hn.
+  cbn [normal] in Hn. apply andb_true_iff in Hn. destruct Hn as [Hnn Hna].
+  destruct (is_quant_op o) eqn:Hq; [rewrite is_qf_quant in Hqf by auto; discriminate|].
+  rewrite is_qf_args in Hqf by auto. rewrite tsubst_nonquant by auto.
+  destruct (tlookup s (T o args)) as [v|] eqn:E; [apply tlookup_In in E; symmetry; now apply He|].
+  assert (Hmap : map (eval I) (map (tsubst s) args) = map (eval I) args).
+  { rewrite map_map. apply map_ext_Forall. rewrite Forall_forall in IH |- *.
+    rewrite forallb_forall in Hqf, Hna. intros a Ha. apply IH; auto. }
+  destruct (op_eqb o ONot) eqn:Hnot.
+  - apply op_eqb_eq in Hnot. subst o. destruct (node_normal_not _ Hnn) as (a & -> & Hta). cbn [map rebuild].
+    rewrite eval_mk_not_gen.
+    + cbn [map] in Hmap. injection Hmap as Hm. unfold tv. rewrite Hm. reflexivity.
+    + intros y Hy. exfalso. destruct a as [oa aa]. cbn [forallb] in Hna, Hqf. rewrite andb_true_r in Hna, Hqf.
+      cbn [normal] in Hna. apply andb_true_iff in Hna. destruct Hna as [Hna1 _].
+      assert (Hqa : is_quant_op oa = false) by (destruct oa; auto; discriminate).
+      assert (Hoa : oa <> ONot) by (intros ->; cbn in Hta; discriminate).
+      pose proof (tsubst_top_not s oa aa Hs Hna1 Hqa Hoa) as Ht. rewrite Hy in Ht. discriminate.
+  - assert (Ho : o <> ONot) by (intros ->; cbn in Hnot; discriminate).
+    rewrite (rebuild_same_len o args) by (auto; apply map_length). now apply eval_congr.
+Qed.
+
+(* what the top-level conjuncts entail *)
+Definition ent (t a b : term) : Prop := forall I, holds I t -> eval I a = eval I b.
+Definition uf_inv (t : term) (m : lmap) : Prop :=
+  forall k l, In (k, l) m -> ent t k l /\ sym_or_const l = true.
+
+Lemma lfind_In m k l : lfind m k = Some l -> In (k, l) m.
+Proof.
+  induction m as [|[x lx] m IH]; cbn; [discriminate|]. destruct (term_eqb x k) eqn:E.
+  - intros H. injection H as <-. apply term_eqb_eq in E. subst. now left.
+  - intros H. right. auto.
+Qed.
+Lemma lset_In m k l p : In p (lset m k l) -> In p m \/ p = (k, l).
+Proof.
+  unfold lset. destruct (lfind m k).
+  - intros H. apply in_map_iff in H. destruct H as ([x lx] & <- & Hin). cbn [fst].
+    destruct (term_eqb x k) eqn:E; auto. apply term_eqb_eq in E. subst. now right.
+  - intros H. apply in_app_or in H. destruct H as [H|[<-|[]]]; auto.
+Qed.
+
+Lemma ent_refl t a : ent t a a. Proof. intros I _. reflexivity. Qed.
+Lemma ent_sym t a b : ent t a b -> ent t b a. Proof. intros H I Ht. symmetry. now apply H. Qed.
+Lemma ent_trans t a b c : ent t a b -> ent t b c -> ent t a c.
+Proof. intros H1 H2 I Ht. rewrite (H1 I Ht). now apply H2. Qed.
+
+Lemma ds_add_inv order t m a b m' : uf_inv t m -> ent t a b -> sym_or_const a = true -> sym_or_const b = true ->
+  ds_add order m a b = Some m' -> uf_inv t m'.
+Proof.
+  intros Inv Hab Sa Sb. unfold ds_add.
+  destruct (lfind m a) as [la|] eqn:Ea; destruct (lfind m b) as [lb|] eqn:Eb.
+  - apply lfind_In in Ea, Eb. destruct (Inv _ _ Ea) as [Ha Sla]. destruct (Inv _ _ Eb) as [Hb Slb].
+    destruct (term_eqb la lb); [intros H; injection H as <-; exact Inv|].
+    destruct (cmp_gt order la lb) as [sw|]; [|discriminate]. intros H. injection H as <-.
+    assert (Hll : ent t la lb) by (eapply ent_trans; [apply ent_sym; exact Ha | eapply ent_trans; [exact Hab | exact Hb]]).
+    intros k l Hin. apply in_map_iff in Hin. destruct Hin as ([x lx] & E & Hin). cbn [fst snd] in E.
+    destruct (Inv _ _ Hin) as [Hx Slx].
+    destruct (term_eqb lx (if sw then la else lb)) eqn:El.
+    + injection E as <- <-. apply term_eqb_eq in El. subst lx. destruct sw.
+      * split; [eapply ent_trans; [exact Hx | exact Hll] | exact Slb].
+      * split; [eapply ent_trans; [exact Hx | apply ent_sym; exact Hll] | exact Sla].
+    + injection E as <- <-. auto.
+  - apply lfind_In in Ea. destruct (Inv _ _ Ea) as [Ha Sla]. intros H. injection H as <-.
+    intros k l Hin. apply lset_In in Hin. destruct Hin as [Hin|Hin]; [auto|]. injection Hin as -> ->.
+    split; auto. eapply ent_trans; [apply ent_sym; exact Hab | exact Ha].
+  - apply lfind_In in Eb. destruct (Inv _ _ Eb) as [Hb Slb]. intros H. injection H as <-.
+    intros k l Hin. apply lset_In in Hin. destruct Hin as [Hin|Hin]; [auto|]. injection Hin as -> ->.
+    split; auto. eapply ent_trans; [exact Hab | exact Hb].
+  - destruct (cmp_gt order a b) as [sw|]; [|discriminate]. intros H. injection H as <-.
+    intros k l Hin. apply lset_In in Hin. destruct Hin as [Hin|Hin].
+    + apply lset_In in Hin. destruct Hin as [Hin|Hin]; [auto|]. injection Hin as -> ->. destruct sw; split; auto using ent_refl.
+    + injection Hin as -> ->. destruct sw; split; auto using ent_sym.
+Qed.
+
+Lemma is_def_spec c l r : is_def c = Some (l, r) -> c = T OEquals [l; r] /\ sym_or_const l = true /\ sym_or_const r = true.
+Proof.
+  destruct c as [o args]. destruct o; try discriminate. destruct args as [|a [|b [|x y]]]; try discriminate. cbn.
+  destruct (is_array_value a || is_array_value b); [discriminate|].
+  destruct (sym_or_const a) eqn:Ea; [|discriminate]. destruct (sym_or_const b) eqn:Eb; [|discriminate].
+  cbn. intros H. injection H as <- <-. auto.
+Qed.
+
+Lemma conjunct_holds t c I : In c (conjunctive_partition t) -> holds I t -> holds I c.
+Proof.
+  intros Hc Ht. apply holds_tv in Ht. apply holds_tv.
+  rewrite <- (conj_partition_tv t I (conjunctive_partition t)) in Ht by apply same_set_refl.
+  rewrite tv_mk_and, forallb_forall in Ht. now apply Ht.
+Qed.
+
+Lemma scan_inv order t : forall cs rel m rel' m', incl cs (conjunctive_partition t) -> uf_inv t m ->
+  scan order cs rel m = Some (rel', m') -> uf_inv t m'.
+Proof.
+  induction cs as [|c cs IH]; intros rel m rel' m' Hi Inv E; cbn in E; [injection E as <- <-; exact Inv|].
+  assert (Hi' : incl cs (conjunctive_partition t)) by (intros x Hx; apply Hi; now right).
+  destruct (is_def c) as [[l r]|] eqn:Ed; [|eapply IH; eauto].
+  destruct (ds_add order m l r) as [m1|] eqn:Ea; [|discriminate].
+  destruct (is_def_spec _ _ _ Ed) as (-> & Sl & Sr).
+  eapply IH; [exact Hi' | | exact E]. apply (ds_add_inv order t m l r m1); auto.
+  intros I Ht. assert (Hc : holds I (T OEquals [l; r])) by (apply (conjunct_holds t); auto; apply Hi; now left).
+  unfold holds in Hc. change (eval I (T OEquals [l; r])) with (VBool (veqb (eval I l) (eval I r))) in Hc.
+  injection Hc as Hc. exact (proj1 (veqb_true _ _) Hc).
+Qed.
+
+Lemma build_sigma_spec t m : uf_inv t m -> forall rel acc s,
+  (forall k v, In (k, v) acc -> ent t k v /\ sym_or_const v = true) ->
+  build_sigma rel m acc = SMap s -> forall k v, In (k, v) s -> ent t k v /\ sym_or_const v = true.
+Proof.
+  intros Inv. induction rel as [|x rel IH]; intros acc s Ha E; cbn in E; [injection E as <-; exact Ha|].
+  destruct (lfind m x) as [v|] eqn:Ef; [|eapply IH; eauto].
+  destruct (term_eqb x v); [eapply IH; eauto|]. destruct (is_const x && is_const v); [discriminate|].
+  eapply IH; [|exact E]. intros k w Hin. apply in_app_or in Hin. destruct Hin as [Hin|[Hin|[]]]; auto.
+  injection Hin as <- <-. apply Inv. now apply lfind_In.
+Qed.
+
+Lemma sym_or_const_not_not v : sym_or_const v = true -> top_not v = false.
+Proof. destruct v as [o args]. destruct o; auto; discriminate. Qed.
+
+(* C10, propagate_toplevel, quantifier-free inputs, the path that builds a substitution *)
+Theorem proptop_equiv_partial : forall order t rel m sigma I,
+  is_qf t = true -> normal t = true -> boolish t = true -> wf_interp I ->
+  scan order (conjunctive_partition t) [] [] = Some (rel, m) -> build_sigma rel m [] = SMap sigma ->
+  eval I (T OAnd [tsubst sigma t; reassert sigma]) = eval I t.
+Proof.
+  intros order t rel m sigma I Hq Hn Hb HI Es Eb.
+  assert (Inv : uf_inv t m) by (eapply (scan_inv order t); [apply incl_refl | | exact Es]; intros k l []).
+  pose proof (build_sigma_spec t m Inv rel [] sigma (fun k v H => match H with end) Eb) as Hs.
+  rewrite eval_and, (is_vbool_eq (eval I t)) by (now apply boolish_is_vbool). f_equal. cbn [forallb]. rewrite andb_true_r.
+  change (vbool (eval I t)) with (tv I t).
+  assert (Er : tv I (reassert sigma) = forallb (fun kv => veqb (eval I (fst kv)) (eval I (snd kv))) sigma).
+  { unfold reassert. rewrite tv_mk_and, forallb_map. reflexivity. }
+  rewrite Er. destruct (forallb (fun kv => veqb (eval I (fst kv)) (eval I (snd kv))) sigma) eqn:Ef.
+  - rewrite andb_true_r. unfold tv. f_equal. apply tsubst_eval; auto.
+    + intros k v Hin. rewrite forallb_forall in Ef. apply (veqb_true (eval I k) (eval I v)). apply (Ef (k, v) Hin).
+    + intros k v Hin. apply sym_or_const_not_not. apply (Hs k v Hin).
+  - rewrite andb_false_r. destruct (tv I t) eqn:Et; auto. exfalso.
+    assert (Ht : holds I t) by (now apply holds_tv).
+    assert (F : forallb (fun kv => veqb (eval I (fst kv)) (eval I (snd kv))) sigma = true).
+    { apply forallb_forall. intros [k v] Hin. cbn [fst snd]. apply veqb_true. now apply (proj1 (Hs k v Hin) I). }
+    congruence.
+Qed.
+
+Corollary proptop_equiv_partial' : forall order t r I,
+  is_qf t = true -> normal t = true -> boolish t = true -> wf_interp I ->
+  propagate_toplevel order t = Some r -> r <> TFalse -> eval I r = eval I t.
+Proof.
+  intros order t r I Hq Hn Hb HI E Hr. unfold propagate_toplevel in E.
+  destruct (scan order (conjunctive_partition t) [] []) as [[rel m]|] eqn:Es; [|discriminate].
+  destruct (build_sigma rel m []) as [|sigma] eqn:Eb; injection E as <-; [congruence|].
+  eapply proptop_equiv_partial; eauto.
+Qed.
+
+(* the refutation witness through the WHOLE model (x has the smaller node id) *)
+Example pt_full_output :
+  propagate_toplevel [pt_x; pt_y] pt_witness =
+  Some (T OAnd [T OAnd [T OEquals [pt_x; pt_x]; T (OExists [("x", bv2)]) [T ONot [T OEquals [pt_x; pt_x]]]];
+                T OEquals [pt_y; pt_x]]).
+Proof. reflexivity. Qed.
+Theorem proptop_full_refuted :
+  exists order t r I, wf_interp I /\ boolish t = true /\ normal t = true /\
+    propagate_toplevel order t = Some r /\ holds I t /\ ~ holds I r.
+Proof.
+  exists [pt_x; pt_y], pt_witness, (propagate_with pt_sigma pt_witness), pt_interp.
+  destruct proptop_refuted_witness as (H1 & H2). split; [exact pt_interp_wf|]. repeat split; auto.
 Qed.
